@@ -11,7 +11,9 @@ from .common import Finding, fhex, flist, cbool
 REL_TOL = 1e-11
 S_MODELS = ["hardsphere", "stickyhardsphere", "squarewell", "hayter_msa"]
 QUICK_P = ["sphere", "core_shell_sphere", "cylinder", "ellipsoid", "vesicle", "hollow_cylinder", "fuzzy_sphere",
-           "core_shell_cylinder", "parallelepiped", "lamellar"]
+           "core_shell_cylinder", "parallelepiped", "lamellar",
+           # form factors that name effective-radius modes but have no amplitude output (no beta mode parameter)
+           "pearl_necklace", "mono_gauss_coil", "raspberry"]
 
 
 def p_candidates():
